@@ -8,7 +8,7 @@ M = "typhon.physics.em:"
 
 NOT_DECIDED = [
     "float cancellation of exp(x)-1 at h f / k T -> 0 and overflow above ~700 (floats are read as reals, A2)",
-    "|Rv|,|Rh| <= 1 and Snell's law for complex n2 (complex arithmetic is outside the value domain)",
+    "|Rv|,|Rh| <= 1 and Snell's law for complex n2 deductively (complex arithmetic is outside the value domain): bounded check snell-fresnel-complex-n2 only",
     "NaN result of snell() beyond total reflection (NaN is outside the real-number reading); the proved clause covers n1 sin(theta1) <= n2",
 ]
 ASSUMPTIONS = ["A6 analytic axiom schemas: exp_pos, exp_gt_1_plus_x, exp_lt_inv, exp_mono, log_exp, exp_log, sin2_cos2, arcsin_def, cos_nonneg_principal, pi_bounds"]
@@ -281,3 +281,50 @@ REG.by_label[M + "perfrequency2perwavelength"].sampler = _grid_sampler2("perhz",
 REG.by_label[M + "perwavelength2perfrequency"].sampler = _grid_sampler2("perm", "lam_grid")
 REG.by_label[M + "perfrequency2perwavenumber"].sampler = _grid_sampler2("perhz", "f_grid")
 REG.by_label[M + "perwavenumber2perfrequency"].sampler = _grid_sampler2("perwn", "wn_grid")
+
+
+# ------------------------------------------------------------------ bounded: complex refractive index of the second medium
+# (complex values are outside the real-number encoding of the proved tier; the formula of Liou is compared with the refraction
+# angle of the transmitted wave vector, computed independently with cmath)
+@bounded(P, "snell-fresnel-complex-n2", "snell() / fresnel() for real n1 in [1, 3] and complex n2 = nr + i ni (nr in [0.8, 9], ni in [1e-3, 4]), "
+         "incidence 0..89.9 degrees, scalar and array forms: refraction angle == atan2(n1 sin t1, Re sqrt(n2^2 - n1^2 sin^2 t1)), invariance "
+         "snell(n1, n2, t) == snell(1, n2 / n1, t), |Rv|, |Rh| <= 1, |Rv| == |Rh| at normal incidence; 400 (quick) / 4000 (thorough) cases")
+def bounded_snell_complex(rng, tier):
+    import cmath
+    import math
+    rounds = 400 if tier == "quick" else 4000
+    evals, failures, samples, distinct = 0, [], [], set()
+    for r in range(rounds):
+        n1 = rng.choice([1.0, 1.33, rng.uniform(1.0, 3.0)])
+        n2 = complex(rng.uniform(0.8, 9.0), rng.choice([1e-3, 0.2, rng.uniform(0.01, 4.0)]))
+        t1 = rng.choice([0.0, 5.0, 45.0, 89.9, rng.uniform(0.0, 89.9)])
+        evals += 1
+        distinct.add((round(n1, 2), round(n2.real, 1), round(n2.imag, 1), round(t1)))
+        case = {"n1": n1, "n2": [n2.real, n2.imag], "theta1": t1}
+        try:
+            got = float(E.snell(n1, n2, t1))
+            scaled = float(E.snell(1.0, n2 / n1, t1))
+            arr = E.snell(n1, _np.array([n2, n2]), t1)
+            Rv, Rh = E.fresnel(n1, n2, t1)
+            Rv0, Rh0 = E.fresnel(n1, n2, 0.0)
+        except Exception as exc:
+            failures.append(dict(case, problem="exception %r" % (exc,)))
+            continue
+        s = n1 * math.sin(math.radians(t1))
+        want = math.degrees(math.atan2(s, cmath.sqrt(n2 * n2 - s * s).real))
+        problems = []
+        if abs(got - want) > 1e-7 * (1 + abs(want)):
+            problems.append("refraction angle %r, wave-vector value %r" % (got, want))
+        if abs(got - scaled) > 1e-7 * (1 + abs(want)):
+            problems.append("snell(n1, n2, t) = %r but snell(1, n2/n1, t) = %r" % (got, scaled))
+        if _np.any(_np.abs(_np.asarray(arr, dtype=float) - got) > 1e-9 * (1 + abs(got))):
+            problems.append("array form differs from the scalar form")
+        if abs(Rv) > 1 + 1e-9 or abs(Rh) > 1 + 1e-9:
+            problems.append("|R| > 1: %r %r" % (Rv, Rh))
+        if abs(abs(Rv0) - abs(Rh0)) > 1e-9:
+            problems.append("|Rv| != |Rh| at normal incidence")
+        if problems:
+            failures.append(dict(case, problem="; ".join(problems)))
+        elif len(samples) < 3:
+            samples.append(dict(case, theta2=got))
+    return {"evaluations": evals, "distinct_nontrivial": len(distinct), "failures": failures[:5], "samples": samples}
